@@ -117,7 +117,8 @@ func (f *fieldSelectionMergingVisitor) EnterField(ref int) {
 
 	fieldType := f.definition.FieldDefinitionType(definition)
 	fieldDefinitionTypeNode := f.definition.FieldDefinitionTypeNode(definition)
-	if fieldDefinitionTypeNode.Kind != ast.NodeKindScalarTypeDefinition {
+	// scalars and enums are the leaf types: fields of these types are compared as a whole below
+	if fieldDefinitionTypeNode.Kind != ast.NodeKindScalarTypeDefinition && fieldDefinitionTypeNode.Kind != ast.NodeKindEnumTypeDefinition {
 
 		matchedRequirements := f.NonScalarRequirementsByPathField(path, objectName)
 		hasDifferentKindInRequirements := false
